@@ -346,15 +346,15 @@ func (vc *VC) strLenFact(s Term) {
 	k := "strlen:" + s.S
 	if !vc.facts[k] {
 		vc.facts[k] = true
-		vc.decls.Fun("str.len", []Sort{SStr}, SInt)
-		vc.assumeRaw(Le(IntLit(0), App(SInt, "str.len", s)))
+		vc.decls.Fun("gstr.len", []Sort{SStr}, SInt)
+		vc.assumeRaw(Le(IntLit(0), App(SInt, "gstr.len", s)))
 	}
 }
 
 func (vc *VC) strLen(s Term) Term {
-	vc.decls.Fun("str.len", []Sort{SStr}, SInt)
+	vc.decls.Fun("gstr.len", []Sort{SStr}, SInt)
 	vc.strLenFact(s)
-	return App(SInt, "str.len", s)
+	return App(SInt, "gstr.len", s)
 }
 
 func (vc *VC) strLit(s string) Term {
@@ -363,8 +363,8 @@ func (vc *VC) strLit(s string) Term {
 	}
 	name := fmt.Sprintf("strlit!%d", len(vc.strlits))
 	t := vc.decls.Const(name, SStr)
-	vc.decls.Fun("str.len", []Sort{SStr}, SInt)
-	vc.assumeRaw(Eq(App(SInt, "str.len", t), IntLit(int64(len(s)))))
+	vc.decls.Fun("gstr.len", []Sort{SStr}, SInt)
+	vc.assumeRaw(Eq(App(SInt, "gstr.len", t), IntLit(int64(len(s)))))
 	for o, ot := range vc.strlits {
 		if o != s {
 			vc.assumeRaw(Ne(t, ot))
@@ -376,8 +376,8 @@ func (vc *VC) strLit(s string) Term {
 }
 
 func (vc *VC) strCat(a, b Term) Term {
-	vc.decls.Fun("str.cat", []Sort{SStr, SStr}, SStr)
-	t := App(SStr, "str.cat", a, b)
+	vc.decls.Fun("gstr.cat", []Sort{SStr, SStr}, SStr)
+	t := App(SStr, "gstr.cat", a, b)
 	k := "cat:" + t.S
 	if !vc.facts[k] {
 		vc.facts[k] = true
@@ -420,13 +420,7 @@ func (vc *VC) box(v Val) Term {
 	case KStr:
 		vc.decls.Fun("box.str", []Sort{SStr}, SInt)
 		vc.decls.Fun("unbox.str", []Sort{SInt}, SStr)
-		t := App(SInt, "box.str", v.T)
-		k := "box:" + t.S
-		if !vc.facts[k] {
-			vc.facts[k] = true
-			vc.assumeRaw(Eq(App(SStr, "unbox.str", t), v.T))
-		}
-		return t
+		return App(SInt, "box.str", v.T)
 	default:
 		t := vc.freshInt("box")
 		vc.boxed[t.S] = v
